@@ -51,6 +51,8 @@ var progs = []progT{
 	{path: "example.com/tools/beta", ver: "v0.3.1", gover: "go1.22.1"},
 	{path: "example.com/tools/alpha", ver: "v1.3.0", gover: "go1.23.0"},
 	{path: "example.com/gamma", ver: "v2.0.0", gover: "go1.23.0"},
+	// a program whose count files are named local.agent@...: the prefix of local REPORTS on a count file
+	{path: "example.com/tools/local.agent", ver: "v0.9.0", gover: "go1.22.1"},
 }
 
 var ctrNames = []string{"c0", "c1", "c2", "c3"}
@@ -1138,6 +1140,12 @@ func scenario() {
 	var steps []string
 	nsteps := 0
 	panics := 0
+	quietAt := 0
+	finish := func(status string) {
+		out.Case(true, caseFields(w, sc, status, quietAt, staleLock, allowed, init0, initUp, upPresent, nth, starts, modeOn, asof, nsteps, steps)...)
+	}
+	// a thread that neither yields nor returns would stop the harness: report the scenario as a hang
+	stopWatch := watchdog(func() { finish("hang") })
 	emit := func(tid int, act string, label string, post string, done, pan bool) {
 		okl, loc := w.listDir(w.local)
 		oku, upl := w.listDir(w.up)
@@ -1204,6 +1212,11 @@ func scenario() {
 			}
 			act = "step " + outcomeTag(nextStatus)
 			out.Note("post-" + outcomeTag(nextStatus))
+			if nextStatus != 0 && tag == "c08" && rnd.Chance(25) {
+				// the status line arrives, the body of the answer does not: the status decides all the same
+				nextStatus += vhttp.BodyCut
+				out.Note("post-answer-body-cut")
+			}
 		}
 		nlog := len(vhttp.Log)
 		info := s.Step(tids[i])
@@ -1379,10 +1392,11 @@ func scenario() {
 		sc.policy = "seq"
 	}
 	runUntilQuiet(main, sc.policy)
-	quietAt := nsteps
+	quietAt = nsteps
 	if sc.eventual {
 		runUntilQuiet([]int{nth - 1}, "seq")
 	}
+	stopWatch()
 	status := "ok"
 	if budget == 0 {
 		status = "hang"
@@ -1392,7 +1406,16 @@ func scenario() {
 	}
 	out.Note("scenario-" + sc.kind)
 	out.Note("policy-" + sc.policy)
+	finish(status)
+	if dbg {
+		fmt.Fprintln(os.Stderr, "---- end of scenario", sc.kind)
+	}
+}
 
+// caseFields: the case line of a lock-step scenario (also written by the watchdog, with what has
+// been observed so far, when a thread neither yields nor returns)
+func caseFields(w *world, sc scen, status string, quietAt int, staleLock string, allowed []int64, init0, initUp []string, upPresent bool,
+	nth int, starts []time.Time, modeOn bool, asof time.Time, nsteps int, steps []string) []string {
 	fields := []string{"up", tag, sc.kind, status, HS(rel(w.local + string(filepath.Separator))), B(sc.eventual), I(int64(quietAt)),
 		HS(staleLock), I(int64(len(allowed)))}
 	for _, a := range allowed {
@@ -1414,10 +1437,7 @@ func scenario() {
 	fields = append(fields, w.descs...)
 	fields = append(fields, I(int64(nsteps)))
 	fields = append(fields, steps...)
-	out.Case(true, fields...)
-	if dbg {
-		fmt.Fprintln(os.Stderr, "---- end of scenario", sc.kind)
-	}
+	return fields
 }
 
 func main() {
